@@ -176,8 +176,13 @@ def fix_dir_mtimes(top: str) -> None:
         os.utime(d, (mt, mt))
 
 
-def install_fixture(root: str, fixture: str | None) -> None:
+def install_fixture(root: str, fixture: str | None, typing_fixture: str | None = None) -> None:
     """Copy test-data/unit/fixtures/<fixture> to tmp/builtins.pyi like `[builtins fixtures/x.pyi]`."""
+    if typing_fixture:
+        dst = os.path.join(root, "tmp", "typing.pyi")
+        shutil.copyfile(os.path.join(FIXTURES, typing_fixture), dst)
+        os.utime(dst, (BASE_TIME, BASE_TIME))
+        fix_dir_mtimes(os.path.join(root, "tmp"))
     if fixture:
         dst = os.path.join(root, "tmp", "builtins.pyi")
         shutil.copyfile(os.path.join(FIXTURES, fixture), dst)
